@@ -90,3 +90,46 @@ impl<G: AffineRepr> R1CSProof<G> {
         }
     }
 }
+
+/// Verification-only constructors and accessors (guarded, add-only).
+#[cfg(feature = "verif-hooks")]
+impl<G: AffineRepr> R1CSProof<G> {
+    /// Assemble a proof object from arbitrary parts. Point order:
+    /// A_I1, A_O1, S1, A_I2, A_O2, S2, T_1, T_3, T_4, T_5, T_6; scalar order:
+    /// t_x, t_x_blinding, e_blinding.
+    pub fn verif_from_parts(
+        points: [G; 11],
+        scalars: [G::ScalarField; 3],
+        ipp_proof: InnerProductProof<G>,
+    ) -> Self {
+        R1CSProof {
+            A_I1: points[0],
+            A_O1: points[1],
+            S1: points[2],
+            A_I2: points[3],
+            A_O2: points[4],
+            S2: points[5],
+            T_1: points[6],
+            T_3: points[7],
+            T_4: points[8],
+            T_5: points[9],
+            T_6: points[10],
+            t_x: scalars[0],
+            t_x_blinding: scalars[1],
+            e_blinding: scalars[2],
+            ipp_proof,
+        }
+    }
+
+    /// Expose the parts of a proof object, in the order of `verif_from_parts`.
+    pub fn verif_parts(&self) -> ([G; 11], [G::ScalarField; 3], &InnerProductProof<G>) {
+        (
+            [
+                self.A_I1, self.A_O1, self.S1, self.A_I2, self.A_O2, self.S2, self.T_1, self.T_3,
+                self.T_4, self.T_5, self.T_6,
+            ],
+            [self.t_x, self.t_x_blinding, self.e_blinding],
+            &self.ipp_proof,
+        )
+    }
+}
